@@ -224,7 +224,7 @@ def check_xy_continuation(ctx, db):
         ctx.check(app, 'R-SHAPE', 'read_gds/XY:%s-appends' % lab, blk.loc(), 'points of an XY record are appended after those already loaded (a boundary with more than 8190 points spans several XY records)',
                   'the %s XY block does not append (cursor at items + count, count += points): a later XY record of the same element overwrites the earlier ones' % lab)
     seg = [c for c in pathif.child('then').walk() if c.k == 'CXXMemberCallExpr' and (c.callee or '').endswith('FlexPath::segment')]
-    ctx.check(len(seg) == 1 and seg[0].id > cont.id and norm(seg[0].args[0].text()).endswith('point_array') or (len(seg) == 1 and 'point_array' in norm(seg[0].args[0].text())), 'R-SHAPE', 'read_gds/XY:PATH-appends', pathif.loc(), 'the points of every PATH XY record are appended to the spine through FlexPath::segment')
+    ctx.check(len(seg) == 1 and seg[0].pos > cont.pos and norm(seg[0].args[0].text()).endswith('point_array') or (len(seg) == 1 and 'point_array' in norm(seg[0].args[0].text())), 'R-SHAPE', 'read_gds/XY:PATH-appends', pathif.loc(), 'the points of every PATH XY record are appended to the spine through FlexPath::segment')
     # first record: first point -> spine.append + width entry, rest from data32 + 2
     keep = {}
     for v in f.walk():
@@ -257,7 +257,7 @@ def check_element_buffers(ctx, db):
             resets = [s_ for s_ in body if (is_assign(s_) and norm(s_.child('lhs').text()) == key + '.count' and s_.child('rhs').cv == 0) or
                       (s_.k == 'CXXMemberCallExpr' and (s_.callee or '').endswith('::clear') and norm(s_.child('obj').text()) == key)]
             declared_inside = any(v.k == 'VarDecl' and v.n == key for v in loop.child('body').walk())
-            skipping = [x for x in loop.child('body').walk() if x.k == 'ContinueStmt' and x.id > c.id and (not resets or x.id < resets[-1].id)]
+            skipping = [x for x in loop.child('body').walk() if x.k == 'ContinueStmt' and x.pos > c.pos and (not resets or x.id < resets[-1].id)]
             ok = declared_inside or (bool(resets) and not skipping and (body.index(resets[-1]) > body.index(top) or body.index(resets[0]) < body.index(top)))
             ctx.check(ok, 'R-FRESH', '%s/%s-emptied-per-element' % (qn.replace('gdstk::', ''), key), c.loc(), 'the scratch array `%s` that element_center appends to is emptied in every iteration of the element loop' % key,
                       'the scratch array `%s` is filled by element_center for every element but never emptied inside the element loop%s: the second PATH record also contains the first element\'s centre line' % (key, ' (a `continue` skips the reset)' if skipping else ''))
